@@ -57,7 +57,7 @@ Section MergeProofs.
     (measure ts < fuel)%nat ->
     exists mpages,
       miterate call has_count count fuel ts = (mpages, Done) /\
-      Permutation (concat mpages) (remaining_all ts) /\
+      Permutation (concat (map fst mpages)) (remaining_all ts) /\
       (length mpages <= Nat.max 1 (measure ts))%nat.
   Proof.
     induction fuel as [|f IH]; intros ts Hfuel; [lia|].
@@ -65,7 +65,7 @@ Section MergeProofs.
     destruct (merged_pages_step (every_count has_count count (length ts)) ts) as [items [mc [Hc [Hp Hm]]]].
     rewrite Hc. destruct mc as [|t mc'].
     - eexists. split; [reflexivity|]. split.
-      + cbn [concat]. rewrite app_nil_r. rewrite Hp. unfold remaining_all. cbn. now rewrite app_nil_r.
+      + cbn [map concat fst]. rewrite app_nil_r. rewrite Hp. unfold remaining_all. cbn. now rewrite app_nil_r.
       + cbn [length]. lia.
     - assert (ts <> []) as Hts.
       { intros ->. cbn in Hc. inversion Hc. }
@@ -73,7 +73,7 @@ Section MergeProofs.
       assert (1 <= measure (t :: mc'))%nat by (cbn; lia).
       destruct (IH (t :: mc')) as [mp [Hit [Hperm Hlen]]]; [lia|].
       rewrite Hit. eexists. split; [reflexivity|]. split.
-      + cbn [concat]. rewrite Hp. now apply Permutation_app_head.
+      + cbn [map concat fst]. rewrite Hp. now apply Permutation_app_head.
       + cbn [length]. lia.
   Qed.
 End MergeProofs.
